@@ -197,12 +197,16 @@ func checkQuoteContextsMarked(p *Prog, r *Result, si *syntaxInfo, rule string) {
 					return true
 				}
 				arg := ast.Unparen(call.Args[0])
+				nodeVar := info.Implicits[cc] // the variable the type switch binds in this clause
 				if c.field == "" {
-					if _, isID := arg.(*ast.Ident); isID {
+					// the node itself, not a part of it
+					if id, isID := arg.(*ast.Ident); isID && nodeVar != nil && info.ObjectOf(id) == nodeVar {
 						marked = true
 					}
 				} else if se, ok := arg.(*ast.SelectorExpr); ok && se.Sel.Name == c.field {
-					marked = true
+					if id, isID := ast.Unparen(se.X).(*ast.Ident); isID && nodeVar != nil && info.ObjectOf(id) == nodeVar {
+						marked = true
+					}
 				}
 				return true
 			})
